@@ -19,10 +19,11 @@ const (
 	FFlip      = "flip"
 	FIllTyped  = "illtyped"
 	FTransient = "transient"
+	FEmpty     = "empty" // a zero-length answer without an error (an empty file)
 	FTrail     = "trail" // the complete document followed by garbage (a glued second document, a stray brace, a proxy error page)
 )
 
-var FaultKinds = []string{FRefuse, FTorn, FFlip, FIllTyped, FTransient, FTrail}
+var FaultKinds = []string{FRefuse, FTorn, FFlip, FIllTyped, FTransient, FTrail, FEmpty}
 
 var trailers = []string{"}", " {\"definitions\":{}}", "\n<html>502 Bad Gateway</html>", " null", ",", "]"}
 
@@ -59,6 +60,8 @@ func (f Fault) Apply(doc []byte, nth int) (out []byte, ok bool) {
 		return c, true
 	case FIllTyped:
 		return []byte(illTypedDocs[abs(f.Arg)%len(illTypedDocs)]), true
+	case FEmpty:
+		return []byte{}, true
 	case FTrail:
 		return append(append([]byte{}, doc...), trailers[abs(f.Arg)%len(trailers)]...), true
 	}
